@@ -5,7 +5,6 @@ import (
 	"crypto/sha256"
 	"fmt"
 	"os"
-	"os/exec"
 	"path/filepath"
 	"runtime"
 	"sort"
@@ -133,6 +132,7 @@ func c19N(tier string) int {
 func init() {
 	fw.Register(&fw.Prop{
 		ID:         "C19",
+		CaseCPU:    3600,
 		Title:      "Publishing yields a closed, confined, deterministic set of files",
 		Race:       true,
 		NeedsCLI:   true,
@@ -532,10 +532,12 @@ func c19Run(c *fw.Ctx, i int) {
 				args = append(args, flag)
 			}
 		}
-		cmd := exec.Command(bin, args...)
-		cmd.Env = append(os.Environ(), "GORACE=halt_on_error=0 exitcode=0 log_path="+filepath.Join(sandbox, "race"))
-		outb, err := cmd.CombinedOutput()
+		outS, err, okRun := runCLI(c, "cli-publish", payload, append(os.Environ(), "GORACE=halt_on_error=0 exitcode=0 log_path="+filepath.Join(sandbox, "race")), 600, bin, args...)
+		outb := []byte(outS)
 		c.Count("cli-runs", 1)
+		if !okRun {
+			return
+		}
 		if CrashedGo(string(outb), err) {
 			c.Violation("cli-publish-crash", fmt.Sprintf("gedcom publish crashed:\n%s", clip(string(outb), 1200)), payload)
 		}
